@@ -7,6 +7,7 @@ import (
 	"io"
 	"math"
 	"os"
+	"reflect"
 	"slices"
 	"strings"
 	"unsafe"
@@ -292,6 +293,16 @@ type IntSize uint8
 
 // Add a value to the value pool.
 // Returns the index of the constant.
+// Identity of two references; references whose dynamic type is not comparable
+// (eg. the map-typed NativeHashRecord) are never identical.
+func sameReference(a, b value.Reference) bool {
+	ta := reflect.TypeOf(a)
+	if ta != reflect.TypeOf(b) || !ta.Comparable() {
+		return false
+	}
+	return a == b
+}
+
 func (f *BytecodeFunction) AddValue(obj value.Value) (int, IntSize) {
 	var id int
 	if obj.IsReference() {
@@ -302,7 +313,7 @@ func (f *BytecodeFunction) AddValue(obj value.Value) (int, IntSize) {
 				continue
 			}
 
-			if value.AsReference() == objRef {
+			if sameReference(value.AsReference(), objRef) {
 				i = j
 				id = j
 				break
